@@ -56,6 +56,9 @@ type histCase struct {
 	Tests   []HistTest `json:"tests"`
 	Procs   []Proc     `json:"procs"`
 	Blocked bool       `json:"blocked_dir,omitempty"` // C20: one more config whose snapshot file can never be written
+	// CRLFBefore > 0: before process number CRLFBefore-1 starts, every snapshot file is converted to CRLF line ends (the tree was
+	// checked out again with core.autocrlf): the files hold the same entries for every reader of the format
+	CRLFBefore int `json:"crlf_before_process_plus1,omitempty"`
 	BlockKind string   `json:"block_kind,omitempty"`  // "" : the directory path is occupied by a regular file | file_is_dir : the snapshot file path is a directory | name_too_long : file name beyond NAME_MAX
 }
 
@@ -137,6 +140,7 @@ type histOpts struct {
 	uniqueExec bool // every process executes a test at most once (so that -count=1 describes it)
 	skips      bool // executions may end with a snaps.Skip* call
 	blocked    bool // extra calls through a config whose directory cannot be created
+	crlf       bool // the files may be converted to CRLF line ends between two processes
 }
 
 func genHistory(t *rapid.T, col *collector, ho histOpts) histCase {
@@ -255,6 +259,9 @@ func genHistory(t *rapid.T, col *collector, ho histOpts) histCase {
 		}
 		pr.Steps = genSchedule(t, c, pr.Execs, ho.interleave && rapid.Bool().Draw(t, "interleave"))
 		c.Procs = append(c.Procs, pr)
+	}
+	if ho.crlf && rapid.IntRange(0, 4).Draw(t, "crlf") == 0 {
+		c.CRLFBefore = 1 + rapid.IntRange(0, len(c.Procs)-1).Draw(t, "crlfbefore")
 	}
 	return c
 }
@@ -376,7 +383,30 @@ func runHistory(c histCase, hooks histHooks) error {
 		}
 	}
 
+	crlf := false
+	lf := func(data string) string {
+		if crlf {
+			return strings.ReplaceAll(data, "\r\n", "\n")
+		}
+		return data
+	}
 	for pi, pr := range c.Procs {
+		if c.CRLFBefore > 0 && pi == c.CRLFBefore-1 {
+			clean := true
+			for _, f := range m.files {
+				if strings.Contains(readFile(f), "\r") {
+					clean = false
+				}
+			}
+			if clean {
+				for _, f := range m.files {
+					if data := readFile(f); data != "" {
+						os.WriteFile(f, []byte(strings.ReplaceAll(data, "\n", "\r\n")), 0o644)
+						crlf = true
+					}
+				}
+			}
+		}
 		newProcess(pr.Mode)
 		// configs per (cfg, update option)
 		cfgFor := func(ci int, upd *bool) *Config {
@@ -457,7 +487,7 @@ func runHistory(c histCase, hooks histHooks) error {
 			}
 			// files: the addressed file changes per outcome, every other file not at all
 			for fi := range m.files {
-				data := readFile(m.files[fi])
+				data := lf(readFile(m.files[fi]))
 				es, perr := refParse(data)
 				if perr != nil {
 					return fmt.Errorf("process %d %s call #%d (%s): file %s is no longer well formed: %v; content %q", pi, name, k, got, filepath.Base(m.files[fi]), perr, clip(data))
@@ -513,7 +543,7 @@ func runHistory(c histCase, hooks histHooks) error {
 			}
 			// afterProc may run Clean: refresh the model's view of the files
 			for fi := range m.files {
-				es, perr := refParse(readFile(m.files[fi]))
+				es, perr := refParse(lf(readFile(m.files[fi])))
 				if perr != nil {
 					return fmt.Errorf("process %d: after end-of-process hook file %s is not well formed: %v", pi, filepath.Base(m.files[fi]), perr)
 				}
@@ -560,6 +590,12 @@ func checkStoredBody(c Call, body string) error {
 }
 
 func classifyHistory(c histCase) ([]string, bool) {
+	if c.CRLFBefore > 0 {
+		cc := c
+		cc.CRLFBefore = 0
+		cls0, nt0 := classifyHistory(cc)
+		return append(cls0, "files_converted_to_crlf_between_processes"), nt0
+	}
 	var cls []string
 	names := []string{}
 	for _, ht := range c.Tests {
@@ -653,7 +689,7 @@ func callText(c Call) string {
 
 func genC03(t *rapid.T) histCase {
 	col := getCollector("C03", "TestC03_History")
-	return genHistory(t, col, histOpts{tests: 4, maxProcs: 3, interleave: true, failing: true, updOptions: true, ci: true})
+	return genHistory(t, col, histOpts{tests: 4, maxProcs: 3, interleave: true, failing: true, updOptions: true, ci: true, crlf: true})
 }
 
 func checkC03(c histCase) error { return runHistory(c, histHooks{}) }
